@@ -78,6 +78,11 @@ def header_case(ctx, rng):
     compat = [l for l in LOGICALS if spec_compatible(phys, l)]
     logical = rng.choice(compat)
     preset = (rng.choice([8, 9, 16, 100, 4000, 4096]), rng.choice([0, 1, 8, 150, 4096]), rng.choice([0, 1, 32, 4096]))
+    if rng.random() < .15:
+        # a writer configured beyond the format's maximum: it may refuse, but whatever header it writes must state the sizes
+        # it really uses, and a reader must then reject that header
+        k = rng.randrange(3)
+        preset = tuple(rng.choice([4097, 5000, 100000]) if j == k else v for j, v in enumerate(preset))
     ns = rng.random() < .5
     delimited = rng.random() < .7
     params = dict(generalized=rng.random() < .5, rdf_star=rng.random() < .5, ns=ns,
@@ -94,7 +99,9 @@ def header_case(ctx, rng):
             cfg["entry"] = "stream_frames_sink" if integ == "generic" else "stream_frames_store"
         data = pj.serialize(cfg, [st], [("ex", "http://e/")] if ns else [])
     except Exception as e:  # noqa: BLE001
-        if logical in FLAT or logical == 0:
+        if max(preset) > 4096:
+            ctx.observe("writer-refused-table-over-4096")
+        elif logical in FLAT or logical == 0:
             ctx.violation({"clause": "writer-raised", "cfg": cfg, "summary": f"{type(e).__name__}: {e}"})
         else:
             ctx.observe("writer-raised-for-grouped-logical-with-flat-entry")
@@ -115,6 +122,17 @@ def header_case(ctx, rng):
     if o["logical_type"] not in ok_logical:
         diffs["logical_type"] = (o["logical_type"], sorted(ok_logical))
     # pyjelly's reader
+    if max(preset) > 4096:
+        ctx.observe("headers-with-table-over-4096")
+        if diffs:
+            ctx.violation({"clause": "header-differs", "cfg": cfg, "diffs": T.to_json(diffs),
+                           "summary": f"writer configured with tables {preset}: header fields (seen, asked): {diffs}"})
+        accepted = [e for e, r in parse_all(data) if r == "ok"]
+        if accepted:
+            ctx.violation({"clause": "limit-read", "limit": "table-over-4096-written-by-pyjelly", "cfg": cfg,
+                           "summary": f"a stream written with tables {preset} is accepted by {accepted}"})
+        ctx.case(("hdr", sorted((k, str(v)) for k, v in cfg.items())), True, sample={"part": "header>4096", "preset": list(preset)})
+        return
     try:
         po, _fr = get_options_and_frames(io.BytesIO(data))
     except Exception as e:  # noqa: BLE001
